@@ -137,6 +137,7 @@ if __name__ == '__main__':
             if os.path.exists(os.path.join(SEEDED, sid, 'meta.json')):
                 g = sid.split('_')[0]; g = 'C09' if g == 'C10' else g
                 if g in os.environ.get('SEEDED_SKIP', '').split(','): continue
+                if os.environ.get('SEEDED_MATCH') and not re.search(os.environ['SEEDED_MATCH'], sid): continue
                 groups.setdefault(g, []).append(sid)
         def work(sids):
             out = []
